@@ -266,6 +266,9 @@ def run(ctx):
         if why:
             res.violation("I2-STEP", Q["Universe(vertices=)"], f"arg={form},nested-universes", f"Universe(vertices=[u2, v, u2]) where u2 and v are universes, given as {form}: {why}")
     res.rule("I2-CONSTRUCT", m)
+    from rules import hist
+    hist.run(ctx, res, 'C02')       # composition: histories through the public API against the reference model (rules/hist.py)
+    common.vacuity(res, "HISTORY", 6000)
     common.vacuity(res, "I2-STEP", 350)
     common.vacuity(res, "I2-CONSTRUCT", 20)
     res.analysed = common.analysed(ctx, list(Q.values()) + ["edgegraph.structure.base.BaseObject.__init__", "edgegraph.structure.base.BaseObject.add_to_universe", "edgegraph.structure.base.BaseObject.remove_from_universe"])
